@@ -155,3 +155,41 @@ Example select_first :
   select_arm [PRange false 0 9; PVar 7%N; PNum false 5] (VInt 5) = Some (0%nat, []) /\
   select_arm [PRange false 0 9; PVar 7%N; PNum false 5] (VInt 50) = Some (1%nat, [(7%N, VInt 50)]).
 Proof. vm_compute. split; reflexivity. Qed.
+
+(* ------------------------------------------------------------------------------------
+   The LOWERING of match and of scalar / tuple patterns (Compile/Lower.v, the model of compile.rs
+   tied gate for gate to the real compiler; Boolean instance, which every emitted circuit
+   computes for all inputs): the first arm whose pattern matches decides value, variables and
+   panic; the match bit of a literal / range pattern is exactly Sem.pmatch on the decoded
+   scrutinee (statements in Compile/TSemControl.v). *)
+From GV Require Import Compile.Lower Compile.TSem Compile.TSemControl.
+Theorem C08_lowering_tsem_match_selects : ltac:(let T := type of tsem_match_selects in exact T).
+Proof. exact tsem_match_selects. Qed.
+Print Assumptions C08_lowering_tsem_match_selects.
+Theorem C08_lowering_tsem_match_first : ltac:(let T := type of tsem_match_first in exact T).
+Proof. exact tsem_match_first. Qed.
+Print Assumptions C08_lowering_tsem_match_first.
+Theorem C08_lowering_tsem_pat_numU_pmatch : ltac:(let T := type of tsem_pat_numU_pmatch in exact T).
+Proof. exact tsem_pat_numU_pmatch. Qed.
+Print Assumptions C08_lowering_tsem_pat_numU_pmatch.
+Theorem C08_lowering_tsem_pat_numS_pmatch : ltac:(let T := type of tsem_pat_numS_pmatch in exact T).
+Proof. exact tsem_pat_numS_pmatch. Qed.
+Print Assumptions C08_lowering_tsem_pat_numS_pmatch.
+Theorem C08_lowering_tsem_pat_urange_pmatch : ltac:(let T := type of tsem_pat_urange_pmatch in exact T).
+Proof. exact tsem_pat_urange_pmatch. Qed.
+Print Assumptions C08_lowering_tsem_pat_urange_pmatch.
+Theorem C08_lowering_tsem_pat_srange_pmatch : ltac:(let T := type of tsem_pat_srange_pmatch in exact T).
+Proof. exact tsem_pat_srange_pmatch. Qed.
+Print Assumptions C08_lowering_tsem_pat_srange_pmatch.
+Theorem C08_lowering_tsem_pat_true : ltac:(let T := type of tsem_pat_true in exact T).
+Proof. exact tsem_pat_true. Qed.
+Print Assumptions C08_lowering_tsem_pat_true.
+Theorem C08_lowering_tsem_pat_false : ltac:(let T := type of tsem_pat_false in exact T).
+Proof. exact tsem_pat_false. Qed.
+Print Assumptions C08_lowering_tsem_pat_false.
+Theorem C08_lowering_tsem_pat_id : ltac:(let T := type of tsem_pat_id in exact T).
+Proof. exact tsem_pat_id. Qed.
+Print Assumptions C08_lowering_tsem_pat_id.
+Theorem C08_lowering_tsem_pat_tuple : ltac:(let T := type of tsem_pat_tuple in exact T).
+Proof. exact tsem_pat_tuple. Qed.
+Print Assumptions C08_lowering_tsem_pat_tuple.
